@@ -1,4 +1,8 @@
 import Model.Edge
+import Model.Ingress
+import Proofs.Lemmas.Ingress
+import Proofs.C16
+import Proofs.C01
 /-!
 # C02 — an edge acknowledges a message only after custody of every recipient is taken
 
@@ -241,6 +245,130 @@ theorem no_reply_before_writes_complete (n : Nat) (s : EnqState) (h : EnqReach n
         simp only [Bool.and_eq_true, List.isEmpty_iff] at hc
         exact ⟨ih.1, fun _ => hc.1⟩
       · simp at hs
+
+/-! ## One `Queue.enqueue` call, end to end: policies, storage writes, the reply, the queue machine
+
+`Model/Ingress.lean` composes the three models an accepted message crosses: `Policy.runPolicies` (C16) produces the envelopes,
+every successful `store.write` is a `write` step of the composed queue machine `Model/QueueM.lean` (C01 / C12), and the edge
+chooses its reply from the result list (`Model/Edge.lean`). The statements below quantify over every policy chain, every
+envelope, every vector of write outcomes AND every history of the queue machine in which the writes of the call have happened
+— whatever else the queue did before, in between and after (other enqueues, scheduler turns, attempts, retries, removals). -/
+section composed
+open Slimta.QM Slimta.Ingress Slimta.Policy
+open Slimta.Attempt (Rcpt)
+open Slimta.Sched (sIds)
+
+theorem writeLabels_mem (now : Nat) (nn : Bool) : ∀ (es : List Policy.Env) (ws : List W) (k : Nat) (hk : k < es.length) (id : Nat),
+    ws[k]? = some (.ok id) → Label.write id now (rcptsOf es[k]) nn ∈ writeLabels now nn es ws
+  | [], _, k, hk, _, _ => by simp at hk
+  | e :: es, [], k, _, _, h => by simp at h
+  | e :: es, w :: ws, 0, _, id, h => by
+    simp only [List.getElem?_cons_zero, Option.some.injEq] at h; subst h
+    simp [writeLabels]
+  | e :: es, w :: ws, k + 1, hk, id, h => by
+    have ih := writeLabels_mem now nn es ws k (by simpa using hk) id (by simpa using h)
+    cases w <;> simp [writeLabels, ih]
+
+/-- A success reply of either edge means the storage took every envelope the policies produced. -/
+theorem ack_means_every_write_ok (c : Call) (hw : WriteErrCodes (c.ws.map W.toWrite))
+    (hack : smtpCode c / 100 = 2 ∨ wsgiCode c / 100 = 2) : ∀ w ∈ c.ws, ∃ id, w = .ok id := by
+  have h := queue_ack_means_all_written (c.ws.map W.toWrite) hw hack
+  intro w hm
+  have := h w.toWrite (List.mem_map_of_mem hm)
+  cases w with
+  | ok id => exact ⟨id, rfl⟩
+  | queueError r => simp [W.toWrite] at this
+  | otherExc => simp [W.toWrite] at this
+
+/-- The policies put no recipient into two envelopes (C16 for an envelope whose recipient positions are distinct, as they are). -/
+theorem no_recipient_in_two_envelopes (cfg : Cfg) (ps : List Pol) (e : Policy.Env) (hn : (slots e).Nodup) :
+    (slotsOf (runPolicies cfg ps e)).Nodup :=
+  (C16.recipients_conserved cfg ps e).nodup_iff.mpr hn
+
+variable {fb : Bool} {pre : List (Nat × Nat)} {rc : Nat → List Rcpt} {nn0 : Nat → Bool}
+
+/-- **Acknowledged means in custody, recipient by recipient** (the property, over the composition): for every policy chain,
+    envelope and vector of write outcomes (one per envelope the policies produced) — if the SMTP edge answers 2xx or the HTTP edge
+    a 2xx status, then in every state of every history of the queue machine in which this call's writes have happened, every
+    recipient of the message as the edge received it belongs to a message the storage took in this call, known to the queue
+    machine with exactly the recipients of one of the policies' envelopes. -/
+theorem ack_means_custody_of_every_recipient (cfg : Cfg) (ps : List Pol) (e : Policy.Env) (ws : List W) (now : Nat)
+    (nn relay : Bool)
+    (hlen : ws.length = (runPolicies cfg ps e).length)
+    (hw : WriteErrCodes (ws.map W.toWrite))
+    (hack : smtpCode (call cfg ps e ws now nn relay) / 100 = 2 ∨ wsgiCode (call cfg ps e ws now nn relay) / 100 = 2)
+    {q0 q : State} {ls : List Label} (hr : ReachT fb q0 ls q)
+    (hdone : ∀ l ∈ writeLabels now nn (runPolicies cfg ps e) ws, l ∈ ls)
+    (x : Nat) (hx : x ∈ slots e) :
+    ∃ id env, W.ok id ∈ ws ∧ env ∈ runPolicies cfg ps e ∧ x ∈ slots env ∧ q.orig id = some (slots env) ∧ q.nonNull id = nn := by
+  have hall := ack_means_every_write_ok (call cfg ps e ws now nn relay) hw hack
+  have hx' : x ∈ slotsOf (runPolicies cfg ps e) := (C16.recipients_conserved cfg ps e).mem_iff.mpr hx
+  simp only [slotsOf, List.mem_flatMap] at hx'
+  obtain ⟨env, henv, hxe⟩ := hx'
+  obtain ⟨k, hk, hke⟩ := List.getElem_of_mem henv
+  have hk' : k < ws.length := by omega
+  obtain ⟨id, hid⟩ := hall ws[k] (List.getElem_mem hk')
+  have hget : ws[k]? = some (.ok id) := by rw [List.getElem?_eq_getElem hk', hid]
+  have hl := hdone _ (writeLabels_mem now nn _ ws k hk id hget)
+  obtain ⟨ho, hnn, _⟩ := write_recorded hr hl
+  refine ⟨id, env, ?_, henv, hxe, ?_, hnn⟩
+  · rw [← hid]; exact List.getElem_mem hk'
+  · rw [ho, hke]; rfl
+
+/-- **… and from then on it is never lost** (C02 ∘ C16 ∘ C01): under the hypotheses above, in every later state of a history that
+    began with a queue on a storage holding any messages, every recipient of the acknowledged message is reported delivered, or
+    failed for good (and named in a bounce that quotes its reply when bounces are produced), or outstanding in a stored message
+    that has a next step — counted in exactly one of the three. -/
+theorem acknowledged_recipient_never_lost (cfg : Cfg) (ps : List Pol) (e : Policy.Env) (ws : List W) (now : Nat)
+    (nn relay : Bool)
+    (hlen : ws.length = (runPolicies cfg ps e).length)
+    (hw : WriteErrCodes (ws.map W.toWrite))
+    (hack : smtpCode (call cfg ps e ws now nn relay) / 100 = 2 ∨ wsgiCode (call cfg ps e ws now nn relay) / 100 = 2)
+    (hpre : (pre.map (·.1)).Nodup) (hrc : ∀ id ∈ pre.map (·.1), (rc id).Nodup)
+    {q : State} {ls : List Label} (hr : ReachT fb (start pre rc nn0) ls q)
+    (hdone : ∀ l ∈ writeLabels now nn (runPolicies cfg ps e) ws, l ∈ ls)
+    (x : Nat) (hx : x ∈ slots e) :
+    ∃ id, W.ok id ∈ ws ∧
+      (q.delivered id).count x + ((q.failed id).map Prod.fst).count x + (outstanding q.s.rem q id).count x = 1 ∧
+      (x ∈ q.delivered id ∨
+       (∃ rp, (x, rp) ∈ q.failed id ∧ ((fb && nn) = true → ∃ b ∈ q.bounces id, b.reply = rp ∧ x ∈ b.rcpts)) ∨
+       (x ∈ outstanding q.s.rem q id ∧ id ∈ sIds q.s ∧ (id ∈ q.s.known → C12.Whereabouts q.s id))) := by
+  obtain ⟨id, env, hid, _, hxe, ho, hnn⟩ :=
+    ack_means_custody_of_every_recipient cfg ps e ws now nn relay hlen hw hack hr hdone x hx
+  refine ⟨id, hid, C01.one_disposition hpre hrc hr.reach id _ ho x hxe, ?_⟩
+  have := C01.accepted_never_lost hpre hrc hr.reach id _ ho x hxe
+  rw [hnn] at this
+  exact this
+
+/-! non-vacuity: a message for three recipients in two domains through the domain split, both writes taken, hand-offs made -/
+def demoCfg : Cfg := { domKey := fun v => some (v % 2), subn := fun _ v => (v, 0, true) }
+def demoEnv : Policy.Env := { eid := 0, sender := 1, body := 2, rcpts := [(0, 10), (1, 11), (2, 12)], hdrs := [] }
+def demoCall : Call := call demoCfg [.domainSplit] demoEnv [.ok 7, .ok 8] 0 true true
+
+example : (runPolicies demoCfg [.domainSplit] demoEnv).map slots = [[0, 2], [1]] := by decide
+example : smtpCode demoCall = 250 ∧ wsgiCode demoCall = 204 ∧
+    labels demoCall = [.write 7 0 [0, 2] true, .write 8 0 [1] true, .activate 7, .activate 8] := by decide
+example : ((QM.run true (QM.start [] (fun _ => []) (fun _ => true)) (labels demoCall)).map fun q =>
+    (q.orig 7, q.orig 8, q.handed)) = some (some [0, 2], some [1], [(8, [1], 0), (7, [0, 2], 0)]) := by rfl
+example : smtpCode (call demoCfg [.domainSplit] demoEnv [.ok 7, .queueError none] 0 true true) = 451 ∧
+    wsgiCode (call demoCfg [.domainSplit] demoEnv [.ok 7, .otherExc] 0 true true) = 500 ∧
+    labels (call demoCfg [.domainSplit] demoEnv [.otherExc, .ok 8] 0 true true) = [.write 8 0 [1] true] := by decide
+/-- the hypotheses of `acknowledged_recipient_never_lost` are met by that run -/
+example : ∃ q, ReachT true (QM.start [] (fun _ => []) (fun _ => true)) (labels demoCall) q ∧
+    ∀ l ∈ writeLabels 0 true (runPolicies demoCfg [.domainSplit] demoEnv) [.ok 7, .ok 8], l ∈ labels demoCall := by
+  have hsome : (QM.run true (QM.start [] (fun _ => []) (fun _ => true)) (labels demoCall)).isSome = true := by rfl
+  obtain ⟨q, hq⟩ := Option.isSome_iff_exists.mp hsome
+  refine ⟨q, ?_, by decide⟩
+  have hl : labels demoCall = [.write 7 0 [0, 2] true, .write 8 0 [1] true, .activate 7, .activate 8] := by decide
+  have hquiet : ∀ l ∈ labels demoCall, quiet l := by
+    intro l hm
+    rw [hl] at hm
+    simp only [List.mem_cons, List.not_mem_nil, or_false] at hm
+    rcases hm with rfl | rfl | rfl | rfl <;> trivial
+  have := reachT_of_run (fb := true) (labels demoCall) [] _ q ReachT.init hquiet hq
+  simpa using this
+
+end composed
 
 /-! Non-vacuity -/
 example : smtpReply [.id, .queueError none, .id] = 451 ∧ wsgiStatus [.id, .queueError (some 552)] = 500 ∧
